@@ -212,9 +212,32 @@ theorem float_cmp (B : Nat) (hB : 2 ≤ B) (digitsUb : Int → Nat)
     (hub : ∀ s : Int, s.natAbs < B ^ digitsUb s)
     (lhs rhs : FRepr) (prec : Option (Nat × Nat))
     (hprec : ∀ lp rp, prec = some (lp, rp) →
-      (lp ≠ 0 → lhs.signif.natAbs < B ^ (lp + 1)) ∧ (rp ≠ 0 → rhs.signif.natAbs < B ^ (rp + 1))) :
+      (lp ≠ 0 → lhs.signif.natAbs < B ^ (min lp cmpIsizeMax + 1)) ∧
+      (rp ≠ 0 → rhs.signif.natAbs < B ^ (min rp cmpIsizeMax + 1))) :
     reprCmpSameBase B digitsUb lhs rhs prec = specFCmp B lhs rhs :=
   reprCmpSameBase_spec B hB digitsUb hub lhs rhs prec hprec
+
+/-- the same with the digit bound in its pre-clamp form (`precision + 1`) for precisions `≤ isize::MAX` — every
+    precision for which a significand of that many digits can exist in memory.  (Before /repo ee43486 the code computed
+    `exponent + precision as isize` unclamped and overflowed; the theorem then was about a model that assumed no overflow.) -/
+theorem float_cmp_of_small_precision (B : Nat) (hB : 2 ≤ B) (digitsUb : Int → Nat)
+    (hub : ∀ s : Int, s.natAbs < B ^ digitsUb s)
+    (lhs rhs : FRepr) (lp rp : Nat) (hlp : lp ≤ cmpIsizeMax) (hrp : rp ≤ cmpIsizeMax)
+    (hl : lp ≠ 0 → lhs.signif.natAbs < B ^ (lp + 1)) (hr : rp ≠ 0 → rhs.signif.natAbs < B ^ (rp + 1)) :
+    reprCmpSameBase B digitsUb lhs rhs (some (lp, rp)) = specFCmp B lhs rhs := by
+  apply float_cmp B hB digitsUb hub
+  intro lp' rp' h
+  cases h
+  exact ⟨fun h => fits_min_of_le B _ _ hlp (hl h), fun h => fits_min_of_le B _ _ hrp (hr h)⟩
+
+-- non-vacuity of the clamped form ABOVE the clamp: `x.with_precision(usize::MAX)` (the witness of the repaired defect,
+-- corpus/C05/float_cmp_exponent_overflow.case): precision 2^64−1 is clamped to 2^63−1, the hypothesis holds (1229 has 4
+-- digits), the comparison is that of the values — `Equal` against itself, `Less` against 1·10^4
+example : (min (2 ^ 64 - 1) cmpIsizeMax = 2 ^ 63 - 1) ∧ ((1229 : Int).natAbs < 10 ^ (min (2 ^ 64 - 1) cmpIsizeMax + 1)) ∧
+    reprCmpSameBase 10 (fun _ => 4) ⟨1229, 0⟩ ⟨1229, 0⟩ (some (2 ^ 64 - 1, 2 ^ 64 - 1)) = .eq ∧
+    reprCmpSameBase 10 (fun _ => 4) ⟨1229, 0⟩ ⟨1, 4⟩ (some (2 ^ 64 - 1, 3)) = .lt := by
+  refine ⟨by decide, ?_, by decide, by decide⟩
+  exact Nat.lt_of_lt_of_le (by decide : (1229 : Int).natAbs < 10 ^ 4) (Nat.pow_le_pow_right (by decide) (by decide))
 
 /- The statement without any hypothesis on the digits is false (`float_cmp_needs_precision_bound`);
    `Context::convert_base` used to hand out such values (fix 02e179b). -/
@@ -339,14 +362,15 @@ example : (12 < 10 ^ 3) ∧ (3400 < 10 ^ 4) ∧ Float.FRepr.new 10 (-(12 * 10 ^ 
     the mode does not occur in the comparison) is the order of their exact values -/
 theorem float_cmp_of_results (B : Nat) (hB : 2 ≤ B) (digitsUb : Int → Nat)
     (hub : ∀ s : Int, s.natAbs < B ^ digitsUb s) (a b : Dashu.Model.Float.FRepr) (pa pb : Nat)
-    (ha : FitsP1 B pa a) (hb : FitsP1 B pb b) :
+    (ha : FitsP1 B pa a) (hb : FitsP1 B pb b)
+    (hma : FitsP1 B cmpIsizeMax a) (hmb : FitsP1 B cmpIsizeMax b) :
     reprCmpSameBase B digitsUb (ofFloatRepr a) (ofFloatRepr b) (some (pa, pb))
       = specFCmp B (ofFloatRepr a) (ofFloatRepr b) :=
-  reprCmp_of_fits B hB digitsUb hub a b pa pb ha hb
+  reprCmp_of_fits B hB digitsUb hub a b pa pb ha hb hma hmb
 
 -- ------------------------------------------------------------------ float histories
 
-/-- **float history theorem.**  Run ANY finite program of float producers — `from_parts`, `convert_int`,
+/-- **float history theorem.**  Run ANY finite program of float producers — `from_parts`, `TryFrom<f32/f64>` (round 6: `fromFloat`), `convert_int`,
     `with_precision`, `neg`, `clone`, the `Context` methods `add sub mul sqr cubic div inv sqrt powi` (positive and
     negative exponents) at ANY limited precision per instruction (the `FBig` operators are these at `Context::max` of
     the operands), the operator product — over a register file of `(representation, precision)` pairs, results fed
@@ -361,11 +385,14 @@ theorem float_history (k : FCfg) (hB : 2 ≤ k.B) (hdub : Float.DubSound k.B k.d
 /-- **C05 for float histories.**  For any two values ever produced by such a program — of whatever precisions, by
     whatever operations — the comparison the code runs (`repr_cmp_same_base` with the precision and digit shortcuts,
     any sound digit estimator) is the order of the exact values, it says `Equal` exactly when `==` holds, and `==`
-    holds exactly when the two representations are identical. -/
+    holds exactly when the two representations are identical.  `hma`/`hmb` (at most 2^63 + 1 digits) are the Nat/usize
+    gap: the code clamps the precisions to `isize::MAX` (/repo ee43486); they hold for every register whose precision is
+    `≤ isize::MAX` (`float_history_cmp_small`) and for every significand that fits a 64-bit address space. -/
 theorem float_history_cmp (k : FCfg) (hB : 2 ≤ k.B) (hdub : Float.DubSound k.B k.dub) (hdlb : Float.DlbSound k.B k.dlb)
     (ops : List FOp) (hok : ∀ op ∈ ops, op.Ok) (env : List FReg) (henv : ∀ x ∈ env, FGood k.B x)
     (digitsUb : Int → Nat) (hub : ∀ s : Int, s.natAbs < k.B ^ digitsUb s)
-    (a b : FReg) (ha : a ∈ frun k ops env) (hb : b ∈ frun k ops env) :
+    (a b : FReg) (ha : a ∈ frun k ops env) (hb : b ∈ frun k ops env)
+    (hma : FitsP1 k.B cmpIsizeMax a.r) (hmb : FitsP1 k.B cmpIsizeMax b.r) :
     reprCmpSameBase k.B digitsUb (ofFloatRepr a.r) (ofFloatRepr b.r) (some (a.p, b.p))
       = specFCmp k.B (ofFloatRepr a.r) (ofFloatRepr b.r) ∧
     (reprCmpSameBase k.B digitsUb (ofFloatRepr a.r) (ofFloatRepr b.r) (some (a.p, b.p)) = .eq ↔
@@ -373,7 +400,7 @@ theorem float_history_cmp (k : FCfg) (hB : 2 ≤ k.B) (hdub : Float.DubSound k.B
     (fbigEq (ofFloatRepr a.r) (ofFloatRepr b.r) = true ↔ a.r = b.r) := by
   obtain ⟨ca, fa, da⟩ := float_history k hB hdub hdlb ops hok env henv a ha
   obtain ⟨cb, fb, db⟩ := float_history k hB hdub hdlb ops hok env henv b hb
-  have h1 := float_cmp_of_results k.B hB digitsUb hub a.r b.r a.p b.p da db
+  have h1 := float_cmp_of_results k.B hB digitsUb hub a.r b.r a.p b.p da db hma hmb
   refine ⟨h1, ?_, ?_⟩
   · rw [h1]; exact (fbigEq_iff k.B hB _ _ ca cb).symm
   · have ia : (ofFloatRepr a.r).isInfinite = false := by
@@ -399,6 +426,22 @@ theorem float_history_cmp (k : FCfg) (hB : 2 ≤ k.B) (hdub : Float.DubSound k.B
       rw [h.1, h.2]
     exact ⟨inj _ _, fun h => by rw [h]⟩
 
+/-- `float_history_cmp` with no hypothesis beyond the program's: the two registers have precisions `≤ isize::MAX`
+    (any precision a 64-bit machine can fill with digits) -/
+theorem float_history_cmp_small (k : FCfg) (hB : 2 ≤ k.B) (hdub : Float.DubSound k.B k.dub) (hdlb : Float.DlbSound k.B k.dlb)
+    (ops : List FOp) (hok : ∀ op ∈ ops, op.Ok) (env : List FReg) (henv : ∀ x ∈ env, FGood k.B x)
+    (digitsUb : Int → Nat) (hub : ∀ s : Int, s.natAbs < k.B ^ digitsUb s)
+    (a b : FReg) (ha : a ∈ frun k ops env) (hb : b ∈ frun k ops env)
+    (hpa : a.p ≤ cmpIsizeMax) (hpb : b.p ≤ cmpIsizeMax) :
+    reprCmpSameBase k.B digitsUb (ofFloatRepr a.r) (ofFloatRepr b.r) (some (a.p, b.p))
+      = specFCmp k.B (ofFloatRepr a.r) (ofFloatRepr b.r) ∧
+    (reprCmpSameBase k.B digitsUb (ofFloatRepr a.r) (ofFloatRepr b.r) (some (a.p, b.p)) = .eq ↔
+      fbigEq (ofFloatRepr a.r) (ofFloatRepr b.r) = true) ∧
+    (fbigEq (ofFloatRepr a.r) (ofFloatRepr b.r) = true ↔ a.r = b.r) := by
+  obtain ⟨_, _, da⟩ := float_history k hB hdub hdlb ops hok env henv a ha
+  obtain ⟨_, _, db⟩ := float_history k hB hdub hdlb ops hok env henv b hb
+  exact float_history_cmp k hB hdub hdlb ops hok env henv digitsUb hub a b ha hb (da.mem_of_le hpa) (db.mem_of_le hpb)
+
 -- non-vacuity: 1230 − 1 (precision 3) keeps the spare digit: register 2 = 1229·10^0 with 4 digits at precision 3;
 -- register 3 = 1·10^3 (precision 1) sits exactly at the threshold of the precision shortcut; register 4 = 1229/7 =
 -- 176 (precision 3), register 5 = its square root 13.3, register 6 = 1.229^-3… — all good, and cmp(reg 3, reg 2) = Less
@@ -414,6 +457,18 @@ example :
   intro op hop
   simp only [List.mem_cons, List.mem_nil_iff, or_false] at hop
   rcases hop with rfl | rfl | rfl | rfl | rfl | rfl | rfl | rfl <;> simp [FOp.Ok]
+
+-- non-vacuity of the `fromFloat` instruction (`FBig::<_, 2>::try_from(f32)`, pairs as `f32::decode` returns them): 1.5f32 =
+-- 0xC00000·2^-23 → 3·2^-1 with precision 24 (bit length of the mantissa, more than its 2 digits), 0.0 (precision 0 =
+-- unlimited), 8.0f32 = 0x800000·2^-20 → 1·2^3 with precision 24, the smallest subnormal 1·2^-149 with precision 1; and
+-- cmp(1.5, 8.0) = Less
+example :
+    let k : FCfg := ⟨2, .halfEven, Float.coarseNone, fun s => Float.digitsI 2 s, fun s => Float.digitsI 2 s, Float.natSqrtRem⟩
+    (frun k [.fromFloat 0xC00000 (-23), .fromFloat 0 (-149), .fromFloat 0x800000 (-20), .fromFloat 1 (-149)] []).map
+        (fun x => (x.r.signif, x.r.exp, x.p))
+      = [(3, -1, 24), (0, 0, 0), (1, 3, 24), (1, -149, 1)] ∧
+    reprCmpSameBase 2 (fun s => Float.digitsI 2 s) ⟨3, -1⟩ ⟨1, 3⟩ (some (24, 24)) = .lt := by
+  refine ⟨by decide +kernel, by decide +kernel⟩
 
 /-- the spare digit does occur — `1230 − 1` at precision 3 (HalfEven) is returned as the EXACT
     4-digit value `1229` (flag `none`): a value that violates the documented precondition of
@@ -445,7 +500,8 @@ theorem float_cmp_equal_iff_eq (B : Nat) (hB : 2 ≤ B) (digitsUb : Int → Nat)
     (hub : ∀ s : Int, s.natAbs < B ^ digitsUb s) (a b : FRepr) (ha : FCanon B a) (hb : FCanon B b)
     (prec : Option (Nat × Nat))
     (hprec : ∀ lp rp, prec = some (lp, rp) →
-      (lp ≠ 0 → a.signif.natAbs < B ^ (lp + 1)) ∧ (rp ≠ 0 → b.signif.natAbs < B ^ (rp + 1))) :
+      (lp ≠ 0 → a.signif.natAbs < B ^ (min lp cmpIsizeMax + 1)) ∧
+      (rp ≠ 0 → b.signif.natAbs < B ^ (min rp cmpIsizeMax + 1))) :
     reprCmpSameBase B digitsUb a b prec = .eq ↔ fbigEq a b = true := by
   rw [float_cmp B hB digitsUb hub a b prec hprec]
   exact (float_eq_iff_cmp_equal B hB a b ha hb).symm
